@@ -7,6 +7,8 @@ import (
 
 	"github.com/VKCOM/statshouse/internal/data_model"
 	"github.com/VKCOM/statshouse/internal/format"
+	"github.com/VKCOM/statshouse/internal/mappings_tracker"
+	"github.com/VKCOM/statshouse/internal/metajournal"
 )
 
 // VerifQuery is the part of queryBuilder the where-clause depends on. Thin accessor only: every function
@@ -79,4 +81,19 @@ func VerifBody(v *VerifQuery, lod data_model.LOD, settings string) (string, erro
 	default:
 		return b.buildTagValueIDsQuery(lod, settings).body, nil
 	}
+}
+
+// VerifGetTagFilter calls the repo's requestHandler.GetTagFilter (user filter string -> data_model.TagValue) on a handler whose
+// only populated parts are the string->id mappings and a fresh mappings tracker.
+func VerifGetTagFilter(ms *metajournal.MappingsStorage, metric *format.MetricMetaValue, tagIndex int, tagValue string) (data_model.TagValue, error) {
+	h := &requestHandler{Handler: &Handler{mappingsStorage: ms, mappingsTracker: mappings_tracker.New()}}
+	return h.GetTagFilter(metric, tagIndex, tagValue)
+}
+
+// VerifColInt returns the integer column name colInt gives to tag tagX.
+func VerifColInt(v *VerifQuery, lod data_model.LOD, tagX int) string { return v.builder().colInt(tagX, &lod) }
+
+// VerifSelectIntExpr returns the select-list expression of tag tagX (selectIntExpr).
+func VerifSelectIntExpr(v *VerifQuery, lod data_model.LOD, tagX int) (string, bool) {
+	return v.builder().selectIntExpr(tagX, &lod)
 }
